@@ -125,7 +125,7 @@ var c14Block16 = []uint16{0xFFFF, 0x0000, 0x00FF, 0xFF00, 0x0001, 0xFFFE, 0x5555
 var c14Block8 = []uint16{0xFF, 0x00, 0x01, 0xFE}
 
 func runC14(r *engine.Run) {
-	r.Rule = "E2 + E1. Dynamic-channel bands (11): network states by explicit-state BFS over AddChannel(fresh,CFList range), AddChannel(fresh,6..6) (at most 4 additions) and Toggle(i) for every channel until the state set closes; in every distinct state every device channel subset of {0..n} (n = one index beyond the plan) is planned, applied by the independent device model (mc/spec/region.go ApplyLinkADR) and by the library's apply function. Full 16-channel plan (3/2 standard + custom) x 6 network patterns x all 2^16 device subsets. Fixed plans (US915, AU915: 72; CN470: 96): network set and device set each range over the product of per-block patterns (16-channel blocks: quick 4 / thorough 7 patterns, CN470 with its six blocks 3 / 5; 500 kHz block: 4 patterns), network sets produced by real Disable/Enable calls in ascending and descending order. Obligations: result of applying = network-enabled channels the device can know; every payload encodable; #payloads <= ceil(plan/16)+1; nothing when the device matches; no panic. Non-trivial: a (network, device) pair for which the planner returned and the result was compared."
+	r.Rule = "E2 + E1. Dynamic-channel bands (11): network states by explicit-state BFS over AddChannel(fresh,CFList range), AddChannel(fresh,6..6), AddChannel(0: placeholder) (at most 3 additions quick / 4 thorough) and Toggle(i) for every channel until the state set closes; in every distinct state every device channel subset of {0..n} (n = one index beyond the plan) is planned, applied by the independent device model (mc/spec/region.go ApplyLinkADR) and by the library's apply function. Full 16-channel plan (3/2 standard + custom) x 6 network patterns x all 2^16 device subsets. Fixed plans (US915, AU915: 72; CN470: 96): network set and device set each range over the product of per-block patterns (16-channel blocks: quick 4 / thorough 7 patterns, CN470 with its six blocks 3 / 5; 500 kHz block: 4 patterns), network sets produced by real Disable/Enable calls in ascending and descending order. Obligations: result of applying = network-enabled channels the device can know; every payload encodable; #payloads <= ceil(plan/16)+1; nothing when the device matches; no panic. Non-trivial: a (network, device) pair for which the planner returned and the result was compared."
 	bandGetterHistory(r)
 	r.Rule += " E3 (schedules): one band object shared by three threads that plan LinkADRReq payloads for three devices concurrently (CN470 / US915 / EU868 with custom channels), every interleaving of the probes on receiver fields some method writes and of synchronisation operations (preemption-bounded and, with state-key pruning, unbounded); each plan must equal the plan made alone, no data race, no deadlock."
 	mergeSchedSummary(r, "C14")
@@ -141,7 +141,10 @@ func runC14(r *engine.Run) {
 		}
 		nStd := len(init.UplinkChannels)
 		base := init.UplinkChannels[0].Frequency
-		maxAdds := 4
+		maxAdds := 3 // quick: at most 3 additions (three kinds: CFList range, DR6..6, placeholder); thorough: 4
+		if r.Thorough() {
+			maxAdds = 4
+		}
 		ops := []engine.XOp{
 			{Name: "Add(cflist-range)", Do: func(obj interface{}) string {
 				b := obj.(band.Band)
@@ -159,6 +162,15 @@ func runC14(r *engine.Run) {
 					return "skip"
 				}
 				b.AddChannel(base+10000000+uint32(n)*200000, 6, 6)
+				return "ok"
+			}},
+			{Name: "Add(frequency 0: placeholder)", Do: func(obj interface{}) string {
+				b := obj.(band.Band)
+				n := len(b.GetUplinkChannelIndices())
+				if n-nStd >= maxAdds {
+					return "skip"
+				}
+				b.AddChannel(0, init.CFListMinDR, init.CFListMaxDR)
 				return "ok"
 			}},
 		}
